@@ -103,8 +103,22 @@ fn front_case(which: &str, text: &str) -> Sx {
 fn options_case(text: &str, tosource: bool, pre: &str) -> Sx {
     sx::tagged("options", vec![src_sx(text), sx::boolean(tosource), sx::atom(pre)])
 }
+/// the cells of the option matrix that set `bool_type` / `int_type` / `float_type` / `string_type`
+fn types_of(pre: &str) -> [Option<&'static str>; 4] {
+    match pre {
+        "float-f32" => [None, None, Some("f32"), None],
+        "int-i32" => [None, Some("i32"), None, None],
+        "int-i128" => [None, Some("i128"), None, None],
+        "string-path" => [None, None, None, Some("std::string::String")],
+        "bool-path" => [Some("std::primitive::bool"), None, None, None],
+        "all-types" => [Some("std::primitive::bool"), Some("i32"), Some("f32"), Some("std::string::String")],
+        _ => [None, None, None, None],
+    }
+}
+
 fn preamble_of(pre: &str) -> Option<String> {
     match pre {
+        "float-f32" | "int-i32" | "int-i128" | "string-path" | "bool-path" | "all-types" => None,
         "none" => None,
         "empty" => Some(String::new()),
         "one" => Some("use std::fmt;".into()),
@@ -129,6 +143,39 @@ fn with_eol(text: &str, eol: &str) -> String {
 
 /// comment lines that are hostile to whoever pastes the definition text into Rust source
 const NASTY_COMMENTS: &str = "# raw string terminators \"# \"## \"### r#\" r##\" \"#\"# br#\"\n# backslashes \\ \\n \\\" \\u{41} quotes ' \" \"\"\" comment markers */ /* // braces {} {{}} {0} attribute #![deny(x)] $crate $x\n#\"#\n";
+
+fn tosource2_case(rel1: &str, rel2: &str, t1: &str, t2: &str) -> Sx {
+    sx::tagged("tosource2", vec![sx::xs(rel1), sx::xs(rel2), src_sx(t1), src_sx(t2)])
+}
+
+/// `cargo_build_tosource(rel1, true); cargo_build_tosource(rel2, true)` in ONE process (what a build.rs with two interfaces
+/// does), both paths relative to the working directory, rustfmt enabled
+fn tosource2_obs(rel1: &str, rel2: &str, t1: &str, t2: &str) -> Sx {
+    let base = build::work_dir().join("front").join(format!("{:016x}-ts2", build::fnv(format!("{}\u{0}{}\u{0}{}\u{0}{}", rel1, rel2, t1, t2).as_bytes())));
+    let _ = std::fs::remove_dir_all(&base);
+    let cwd = base.join("cwd");
+    let mut outs = Vec::new();
+    for (rel, t) in [(rel1, t1), (rel2, t2)] {
+        let input = cwd.join(rel);
+        if let Some(d) = input.parent() {
+            let _ = std::fs::create_dir_all(d);
+        }
+        std::fs::write(&input, t).expect("front input");
+    }
+    let mut c = std::process::Command::new(build::bin_path("fe_build"));
+    c.current_dir(&cwd).arg("tosource2").arg(&base).arg(rel1).arg(rel2);
+    let (code, _, err) = run_tool(&mut c);
+    for rel in [rel1, rel2] {
+        let input = cwd.join(rel);
+        let fname = input.file_name().unwrap().to_string_lossy().to_string();
+        let stem = fname.strip_suffix(".varlink").unwrap_or(&fname).replace('.', "_");
+        let produced = std::fs::read_to_string(input.parent().unwrap().join(format!("{}.rs", stem))).unwrap_or_default();
+        outs.push(sx::boolean(!produced.is_empty()));
+    }
+    let mut l = vec![sx::atom(status_of(code, &err))];
+    l.extend(outs);
+    sx::tagged("tosource2", l)
+}
 
 fn frontmany_case(texts: &[&str]) -> Sx {
     sx::tagged("frontmany", texts.iter().map(|t| src_sx(t)).collect())
@@ -602,6 +649,22 @@ fn session_cases(rng: &mut Rng, ctx: &Ctx, texts_pool: &[String], cases: &mut Ve
         Some(raw_step(&mut r2, &abc, true)),
     ];
     push(cases, &abc, s, "raw-errors-between-calls");
+    // a client that sends a call and disconnects before the service looks at it, then another client on a new connection
+    // served by the SAME thread: the second client must get its own reply
+    for k in 0..(if ctx.thorough { 10 } else { 3 }) {
+        let one = [abc[k % 3]];
+        let first = gen_step(rng, &one, 0, None, "abandon");
+        let second = gen_step(rng, &one, 0, None, if k % 2 == 0 { "call" } else { "more" });
+        if let (Some(Step::Gen(_, mut c1)), Some(s2)) = (first, second) {
+            c1.mode = "abandon0".into();
+            let steps = vec![Step::Gen(0, c1), s2];
+            let mut sxs = session_case(&one, &steps);
+            if let Sx::List(l) = &mut sxs {
+                l[0] = sx::atom("sendclose");
+            }
+            cases.push(Case { input: sxs, tags: tag("send-then-close-then-new-connection") });
+        }
+    }
     // random sessions over 1-3 interfaces
     let n = if ctx.thorough { 60 } else { 8 };
     let families: [&[&str]; 4] = [&["a.b", "a.b.c", "a.bc"], &["org.example.s", "org.example.s.t.u", "org.example"], &["x.y.z", "x.y", "x.yy.z"], &["Q.r", "Q.r-1", "Q.r.0"]];
@@ -805,6 +868,15 @@ fn all_cases(ctx: &Ctx) -> Vec<Case> {
                 }
             }
         }
+        // the *_type options on a definition with every base type in method input, output, error parameters and typedefs
+        let typed = "interface org.example.w\ntype T (f: float, l: []float, o: ?int, m: [string]bool, s: ?string)\nmethod F(b: bool, i: int, f: float, s: string, t: T) -> (b: bool, i: int, f: float, s: string, t: ?T)\nmethod G() -> (x: []float)\nerror E (b: bool, i: int, f: float, s: string)\nerror F2 (f: ?float, l: []int)\n";
+        for pre in ["float-f32", "int-i32", "int-i128", "string-path", "bool-path", "all-types"] {
+            for tosource in [false, true] {
+                if ctx.thorough || !tosource || pre == "all-types" {
+                    cases.push(Case { input: options_case(typed, tosource, pre), tags: vec!["kind:options".into(), format!("types:{}", pre)] });
+                }
+            }
+        }
         cases.push(Case { input: options_case(witnesses()[0].1, true, "one"), tags: vec!["kind:options".into(), "gen:panic".into()] });
         cases.push(Case { input: options_case("interface org.example.w\n", true, "one"), tags: vec!["kind:options".into(), "parse:rejected".into()] });
     }
@@ -821,6 +893,10 @@ fn all_cases(ctx: &Ctx) -> Vec<Case> {
             }
         }
         cases.push(Case { input: frontpath_case("tosource", "./src.d/org.example.bad.varlink", "interface org.example.w\n"), tags: vec!["kind:frontpath".into(), "parse:rejected".into()] });
+        // two helper calls in one process, relative paths, rustfmt on
+        for (r1, r2) in [("src/org.example.one.varlink", "src/org.example.two.varlink"), ("a/org.example.one.varlink", "b/c/org.example.two.varlink"), ("org.example.one.varlink", "./sub/org.example.two.varlink")] {
+            cases.push(Case { input: tosource2_case(r1, r2, subject, SESSION_B), tags: vec!["kind:tosource2".into()] });
+        }
     }
     // generating twice into the same place: long then short (a stale tail must not survive), short then long, same twice
     {
@@ -830,6 +906,13 @@ fn all_cases(ctx: &Ctx) -> Vec<Case> {
         for which in ["one", "many", "tosource"] {
             for (a, b, tag) in [(long, short, "long-then-short"), (short, long, "short-then-long"), (long, long, "same-twice")] {
                 cases.push(Case { input: regen_case(which, a, b), tags: vec!["kind:regen".into(), format!("front:{}", which), format!("regen:{}", tag)] });
+            }
+        }
+        // another revision of the definition whose time stamp is older than the output of the first run (a checkout of an
+        // older revision, an unpacked archive): the bindings must follow the definition, not the clock
+        for which in ["one-older", "many-older", "tosource-older"] {
+            for (a, b, tag) in [(long, short, "long-then-short"), (short, long, "short-then-long")] {
+                cases.push(Case { input: regen_case(which, a, b), tags: vec!["kind:regen".into(), format!("front:{}", which), format!("regen:{}-older-timestamp", tag)] });
             }
         }
         // a rejected definition must be refused with a diagnostic EVERY time (the failed first run must not make the second
@@ -1246,7 +1329,8 @@ struct SessionPlan {
 /// the binary a session case needs and the command that runs it (None: not a session case)
 fn plan_session(c: &Sx) -> Option<SessionPlan> {
     let l = c.as_list()?;
-    if l.first()?.as_atom()? != "session" {
+    let kind = l.first()?.as_atom()?.to_string();
+    if kind != "session" && kind != "sendclose" {
         return None;
     }
     let bad = SessionPlan { bin: None, command: String::new(), bad: true };
@@ -1266,6 +1350,7 @@ fn plan_session(c: &Sx) -> Option<SessionPlan> {
     // call cases per interface, in step order; the command refers to them by index
     let mut per_iface: Vec<Vec<(usize, CallCase)>> = vec![Vec::new(); texts.len()];
     let mut cmd = vec![sx::atom("session")];
+    let _ = &kind;
     for st in steps {
         let sl = match st.as_list() {
             Some(sl) if !sl.is_empty() => sl,
@@ -1323,6 +1408,13 @@ fn plan_session(c: &Sx) -> Option<SessionPlan> {
     let stem = format!("s{:016x}", build::fnv(key.as_bytes()));
     let idl_files: Vec<(String, String)> = parts.iter().zip(texts.iter()).map(|(p, t)| (p.1.clone(), t.clone())).collect();
     let source = session_source(&parts);
+    if kind == "sendclose" {
+        // exactly two generated steps on interface 0: call cases 0 and 1
+        if texts.len() != 1 || per_iface[0].len() != 2 || cmd.len() != 3 {
+            return Some(SessionPlan { bin: None, command: String::new(), bad: true });
+        }
+        cmd = vec![sx::atom("sendclose"), sx::nat(0), sx::nat(0), sx::nat(1)];
+    }
     Some(SessionPlan { bin: Some(SessionBin { stem, idls: idl_files, source }), command: sx::list(cmd).render(), bad: false })
 }
 
@@ -1339,10 +1431,18 @@ fn regen_obs(which: &str, first: &str, second: &str) -> Sx {
     let _ = std::fs::create_dir_all(&out);
     let input = base.join("org.example.regen.varlink");
     let mut last = (None, String::new());
-    for text in [first, second] {
+    // `<entry>-older`: the second revision of the definition carries a time stamp OLDER than the first output
+    let older = which.ends_with("-older");
+    let which = which.trim_end_matches("-older");
+    for (round, text) in [first, second].into_iter().enumerate() {
         // an unchanged definition is left untouched (its mtime stays older than the output of the first run)
         if std::fs::read_to_string(&input).ok().as_deref() != Some(text) {
             std::fs::write(&input, text).expect("front input");
+        }
+        if older && round == 1 {
+            if let Ok(f) = std::fs::File::options().write(true).open(&input) {
+                let _ = f.set_modified(std::time::SystemTime::UNIX_EPOCH + std::time::Duration::from_secs(978_307_200));
+            }
         }
         // file system timestamps have a coarse grain
         std::thread::sleep(std::time::Duration::from_millis(15));
@@ -1427,7 +1527,7 @@ fn prepare(cases: &[Sx]) -> HashMap<String, String> {
             None => continue,
         };
         let kind = l.first().and_then(|x| x.as_atom()).unwrap_or("");
-        if kind == "frontmany" || kind == "helper-batch" || kind == "frontpath" || kind == "regen" || kind == "session" {
+        if kind == "frontmany" || kind == "helper-batch" || kind == "frontpath" || kind == "regen" || kind == "session" || kind == "tosource2" || kind == "sendclose" {
             continue;
         }
         if kind == "options" {
@@ -1435,7 +1535,7 @@ fn prepare(cases: &[Sx]) -> HashMap<String, String> {
                 if Idl::parse(&t).is_ok() || true {
                     let stem = format!("o{:016x}", build::fnv(format!("{}\u{0}{}\u{0}{}", t, ts, pre).as_bytes()));
                     if !opt_specs.iter().any(|o: &build::OptSpec| o.stem == stem) {
-                        opt_specs.push(build::OptSpec { stem, idl_text: t, tosource: ts == "t", preamble: preamble_of(pre) });
+                        opt_specs.push(build::OptSpec { stem, idl_text: t, tosource: ts == "t", preamble: preamble_of(pre), types: types_of(pre) });
                     }
                 }
             }
@@ -1541,14 +1641,26 @@ fn prepare(cases: &[Sx]) -> HashMap<String, String> {
             obs[ci] = Some(sx::tagged("helper-batch", vec![sx::atom(if st == "ok" { "ok" } else { "failed" })]).render());
             continue;
         }
-        if kind == "session" {
+        if kind == "session" || kind == "sendclose" {
             match sessions.get(&c.render()) {
                 Some(SessionPlan { bin: Some(spec), command, .. }) if built.get(&spec.stem).map(|r| r.built).unwrap_or(false) => {
                     cmds.entry(spec.stem.clone()).or_default().push((ci, command.clone()));
                 }
                 Some(SessionPlan { bad: true, .. }) | None => obs[ci] = Some("(bad-case)".into()),
-                _ => obs[ci] = Some("(session nobuild)".into()),
+                _ => obs[ci] = Some(format!("({} nobuild)", kind)),
             }
+            continue;
+        }
+        if kind == "tosource2" {
+            let r1 = l.get(1).and_then(|x| x.as_str()).unwrap_or_default();
+            let r2 = l.get(2).and_then(|x| x.as_str()).unwrap_or_default();
+            let t1 = l.get(3).and_then(src_text).unwrap_or_default();
+            let t2 = l.get(4).and_then(src_text).unwrap_or_default();
+            if r1.is_empty() || r2.is_empty() || l.get(3).map(|s| s.render()) != Some(src_sx(&t1).render()) || l.get(4).map(|s| s.render()) != Some(src_sx(&t2).render()) {
+                obs[ci] = Some("(bad-case)".into());
+                continue;
+            }
+            obs[ci] = Some(tosource2_obs(&r1, &r2, &t1, &t2).render());
             continue;
         }
         if kind == "regen" {
